@@ -1,8 +1,865 @@
-//! C11 — generator and driver of the real API.
+//! C11 — FASTA / FASTQ writers and readers, fastx sniffer.
+//!
+//! Record lists: records `/`-separated, fields `:`-separated, byte strings in hex (`-` empty), `_` = no description.
+//!   FASTA  `<id>:<desc|_>:<seq>`            FASTQ  `<id>:<desc|_>:<seq>:<qual>`
+//! Reader configurations `<cfgs>`: `/`-separated `<cap>:<mode>:<s1,s2,…>` — the real reader sits on
+//!   `BufReader::with_capacity(cap, Fragmenting(bytes, schedule))` (`cap = 0`: `Reader::new`, the default 8 KiB);
+//!   mode `i` = `records()` iterator, `r` = repeated `read(&mut record)` into ONE reused record.
+//!
+//! ops
+//!   `w fa <wrap|none> <recs> <cfgs>`   real writer → bytes `F`; every configuration reads `F` back
+//!   `w fq none <recs> <cfgs>`
+//!   `lay fa <lrecs> <cfgs>`            bytes laid out HERE (not by the writer): `<id>:<desc>:<seq>:<n|r>:<w1,w2,…>`
+//!                                      (terminator LF / CRLF, widths of the sequence lines, 0 = blank line)
+//!   `lay fq <lrecs> <cfgs>`            `<id>:<desc>:<seq>:<qual>:<n|r>:<plus-line suffix hex>:<sw…>:<qw…>`
+//!   `cut fa|fq <wrap|none> <recs> <offs> <cfg>`  writer bytes `F`, then the reader on `F[..c]` for every offset
+//!                                      (`offs` = `all` or a list); per offset `<k>+<tail>`: the first `k` items are
+//!                                      exactly the first `k` original records (checked ok), `tail` = the others
+//!   `raw fa|fq|fx <hex> <cfgs>`        arbitrary bytes
+//!   `fx fa|fq <wrap|none> <recs> <cfgs>`  writer bytes through `get_kind`, `get_kind_seek`, `EitherRecords`
+//!
+//! observation: `F:<hex>` (where bytes are produced here) followed by one `R:<items>` per configuration;
+//! items `/`-separated: `r:<id>:<desc|_>:<seq>[:<qual>]:<check 0|1>` | `e:<class>`; `-` = no item.
 use crate::util::*;
+use bio::io::fasta::{self, FastaRead};
+use bio::io::fastq::{self, FastqRead};
+use bio::io::fastx::{self, Record as FxRecord};
+use std::io::{self, BufReader, Cursor, Read};
 
-pub fn gen(_tier: &str, _rng: &mut Rng, _out: &mut Vec<String>) {}
+#[path = "fragio.rs"]
+mod fragio;
+use fragio::Fragmenting;
 
-pub fn exec(_toks: &[&str]) -> Result<String, String> {
-    Err("unimplemented".into())
+#[derive(Clone, Debug, PartialEq)]
+struct Rec {
+    id: Vec<u8>,
+    desc: Option<Vec<u8>>,
+    seq: Vec<u8>,
+    qual: Option<Vec<u8>>,
+}
+
+fn opt_hex(d: &Option<Vec<u8>>) -> String {
+    match d {
+        None => "_".into(),
+        Some(d) => hex(d),
+    }
+}
+
+fn enc_rec(r: &Rec) -> String {
+    match &r.qual {
+        None => format!("{}:{}:{}", hex(&r.id), opt_hex(&r.desc), hex(&r.seq)),
+        Some(q) => format!("{}:{}:{}:{}", hex(&r.id), opt_hex(&r.desc), hex(&r.seq), hex(q)),
+    }
+}
+
+fn dec_desc(s: &str) -> Result<Option<Vec<u8>>, String> {
+    if s == "_" {
+        Ok(None)
+    } else {
+        Ok(Some(unhex(s)?))
+    }
+}
+
+fn dec_recs(s: &str, fq: bool) -> Result<Vec<Rec>, String> {
+    let mut out = vec![];
+    for item in split_list(s, '/') {
+        let f: Vec<&str> = item.split(':').collect();
+        if f.len() != if fq { 4 } else { 3 } {
+            return Err("record arity".into());
+        }
+        out.push(Rec {
+            id: unhex(f[0])?,
+            desc: dec_desc(f[1])?,
+            seq: unhex(f[2])?,
+            qual: if fq { Some(unhex(f[3])?) } else { None },
+        });
+    }
+    Ok(out)
+}
+
+fn utf8(b: &[u8]) -> Result<&str, String> {
+    std::str::from_utf8(b).map_err(|_| "not utf8".to_string())
+}
+
+#[derive(Clone)]
+struct Cfg {
+    cap: usize,
+    mode: char,
+    sched: Vec<usize>,
+}
+
+fn dec_cfgs(s: &str) -> Result<Vec<Cfg>, String> {
+    let mut out = vec![];
+    for item in split_list(s, '/') {
+        let f: Vec<&str> = item.split(':').collect();
+        if f.len() != 3 || !(f[1] == "i" || f[1] == "r") {
+            return Err("cfg".into());
+        }
+        let sched: Vec<usize> = parse_list(f[2], ',')?;
+        if sched.is_empty() || sched.iter().any(|&x| x == 0) {
+            return Err("cfg sched".into());
+        }
+        out.push(Cfg { cap: parse(f[0])?, mode: f[1].chars().next().unwrap(), sched });
+    }
+    if out.is_empty() {
+        return Err("no cfg".into());
+    }
+    Ok(out)
+}
+
+fn bufreader(bytes: &[u8], c: &Cfg) -> BufReader<Fragmenting<Cursor<Vec<u8>>>> {
+    let fr = Fragmenting::new(Cursor::new(bytes.to_vec()), c.sched.clone(), false);
+    if c.cap == 0 {
+        BufReader::new(fr)
+    } else {
+        BufReader::with_capacity(c.cap, fr)
+    }
+}
+
+fn io_class(e: &io::Error) -> &'static str {
+    if e.kind() == io::ErrorKind::InvalidData {
+        "utf8"
+    } else if e.to_string().contains("Expected >") {
+        "start"
+    } else if e.kind() == io::ErrorKind::UnexpectedEof {
+        "eof"
+    } else {
+        "io"
+    }
+}
+
+fn fq_class(e: &fastq::Error) -> &'static str {
+    match e {
+        fastq::Error::MissingAt => "at",
+        fastq::Error::IncompleteRecord => "inc",
+        fastq::Error::ReadError(e) => io_class(e),
+        _ => "other",
+    }
+}
+
+/// one reader item in canonical form
+#[derive(Clone, Debug, PartialEq)]
+enum Item {
+    R(Rec, bool),
+    E(String),
+}
+
+fn enc_item(i: &Item) -> String {
+    match i {
+        Item::R(r, ok) => format!("r:{}:{}", enc_rec(r), if *ok { 1 } else { 0 }),
+        Item::E(c) => format!("e:{}", c),
+    }
+}
+
+fn enc_items(v: &[Item]) -> String {
+    if v.is_empty() {
+        "-".into()
+    } else {
+        v.iter().map(enc_item).collect::<Vec<_>>().join("/")
+    }
+}
+
+fn fa_item(r: &fasta::Record) -> Item {
+    Item::R(
+        Rec {
+            id: r.id().as_bytes().to_vec(),
+            desc: r.desc().map(|d| d.as_bytes().to_vec()),
+            seq: r.seq().to_vec(),
+            qual: None,
+        },
+        r.check().is_ok(),
+    )
+}
+
+fn fq_item(r: &fastq::Record) -> Item {
+    Item::R(
+        Rec {
+            id: r.id().as_bytes().to_vec(),
+            desc: r.desc().map(|d| d.as_bytes().to_vec()),
+            seq: r.seq().to_vec(),
+            qual: Some(r.qual().to_vec()),
+        },
+        r.check().is_ok(),
+    )
+}
+
+fn read_fasta<B: io::BufRead>(rd: B, mode: char, limit: usize) -> Vec<Item> {
+    let mut out = vec![];
+    if mode == 'i' {
+        for r in fasta::Reader::from_bufread(rd).records() {
+            match r {
+                Ok(r) => out.push(fa_item(&r)),
+                Err(e) => out.push(Item::E(io_class(&e).into())),
+            }
+            if out.len() > limit {
+                out.push(Item::E("LOOP".into()));
+                break;
+            }
+        }
+    } else {
+        let mut reader = fasta::Reader::from_bufread(rd);
+        let mut rec = fasta::Record::new();
+        loop {
+            match reader.read(&mut rec) {
+                Ok(()) => {
+                    if rec.is_empty() {
+                        break;
+                    }
+                    out.push(fa_item(&rec));
+                }
+                Err(e) => {
+                    out.push(Item::E(io_class(&e).into()));
+                    break;
+                }
+            }
+            if out.len() > limit {
+                out.push(Item::E("LOOP".into()));
+                break;
+            }
+        }
+    }
+    out
+}
+
+fn read_fastq<B: io::BufRead>(rd: B, mode: char, limit: usize) -> Vec<Item> {
+    let mut out = vec![];
+    if mode == 'i' {
+        for r in fastq::Reader::from_bufread(rd).records() {
+            match r {
+                Ok(r) => out.push(fq_item(&r)),
+                Err(e) => out.push(Item::E(fq_class(&e).into())),
+            }
+            if out.len() > limit {
+                out.push(Item::E("LOOP".into()));
+                break;
+            }
+        }
+    } else {
+        let mut reader = fastq::Reader::from_bufread(rd);
+        let mut rec = fastq::Record::new();
+        loop {
+            match reader.read(&mut rec) {
+                Ok(()) => {
+                    if rec.is_empty() {
+                        break;
+                    }
+                    out.push(fq_item(&rec));
+                }
+                Err(e) => out.push(Item::E(fq_class(&e).into())),
+            }
+            if out.len() > limit {
+                out.push(Item::E("LOOP".into()));
+                break;
+            }
+        }
+    }
+    out
+}
+
+fn read_cfg(bytes: &[u8], fq: bool, c: &Cfg) -> Vec<Item> {
+    let limit = bytes.len() + 8;
+    if fq {
+        read_fastq(bufreader(bytes, c), c.mode, limit)
+    } else {
+        read_fasta(bufreader(bytes, c), c.mode, limit)
+    }
+}
+
+fn dec_wrap(s: &str) -> Result<Option<usize>, String> {
+    if s == "none" {
+        Ok(None)
+    } else {
+        let w: usize = parse(s)?;
+        if w == 0 {
+            return Err("wrap 0".into());
+        }
+        Ok(Some(w))
+    }
+}
+
+/// the real writers; `alt` selects `write_record` on a `Record` instead of `write`
+fn write_real(recs: &[Rec], fq: bool, wrap: Option<usize>, alt: bool) -> Result<Vec<u8>, String> {
+    let mut buf: Vec<u8> = vec![];
+    if fq {
+        let mut w = fastq::Writer::new(&mut buf);
+        for r in recs {
+            let id = utf8(&r.id)?;
+            let desc = match &r.desc {
+                Some(d) => Some(utf8(d)?),
+                None => None,
+            };
+            let q = r.qual.as_ref().ok_or("qual")?;
+            utf8(&r.seq)?;
+            utf8(q)?;
+            if alt {
+                w.write_record(&fastq::Record::with_attrs(id, desc, &r.seq, q)).map_err(|e| e.to_string())?;
+            } else {
+                w.write(id, desc, &r.seq, q).map_err(|e| e.to_string())?;
+            }
+        }
+        w.flush().map_err(|e| e.to_string())?;
+    } else {
+        let mut w = fasta::Writer::new(&mut buf);
+        w.set_linewrap(wrap);
+        for r in recs {
+            let id = utf8(&r.id)?;
+            let desc = match &r.desc {
+                Some(d) => Some(utf8(d)?),
+                None => None,
+            };
+            utf8(&r.seq)?;
+            if alt {
+                w.write_record(&fasta::Record::with_attrs(id, desc, &r.seq)).map_err(|e| e.to_string())?;
+            } else {
+                w.write(id, desc, &r.seq).map_err(|e| e.to_string())?;
+            }
+        }
+        w.flush().map_err(|e| e.to_string())?;
+    }
+    Ok(buf)
+}
+
+fn pieces(s: &[u8], widths: &[usize]) -> Result<Vec<Vec<u8>>, String> {
+    if widths.iter().sum::<usize>() != s.len() {
+        return Err("widths do not add up".into());
+    }
+    let mut out = vec![];
+    let mut p = 0;
+    for &w in widths {
+        out.push(s[p..p + w].to_vec());
+        p += w;
+    }
+    Ok(out)
+}
+
+/// layout given by the case line (independent of the writers)
+fn layout(s: &str, fq: bool) -> Result<Vec<u8>, String> {
+    let mut f = vec![];
+    for item in split_list(s, '/') {
+        let t: Vec<&str> = item.split(':').collect();
+        if t.len() != if fq { 8 } else { 5 } {
+            return Err("layout arity".into());
+        }
+        let id = unhex(t[0])?;
+        let desc = dec_desc(t[1])?;
+        let seq = unhex(t[2])?;
+        let (eolt, rest) = if fq { (t[4], 5) } else { (t[3], 4) };
+        let eol: &[u8] = match eolt {
+            "n" => b"\n",
+            "r" => b"\r\n",
+            _ => return Err("eol".into()),
+        };
+        f.push(if fq { b'@' } else { b'>' });
+        f.extend_from_slice(&id);
+        if let Some(d) = &desc {
+            f.push(b' ');
+            f.extend_from_slice(d);
+        }
+        f.extend_from_slice(eol);
+        if fq {
+            let qual = unhex(t[3])?;
+            let plus = unhex(t[rest])?;
+            let sw: Vec<usize> = parse_list(t[rest + 1], ',')?;
+            let qw: Vec<usize> = parse_list(t[rest + 2], ',')?;
+            for p in pieces(&seq, &sw)? {
+                f.extend_from_slice(&p);
+                f.extend_from_slice(eol);
+            }
+            f.push(b'+');
+            f.extend_from_slice(&plus);
+            f.extend_from_slice(eol);
+            for p in pieces(&qual, &qw)? {
+                f.extend_from_slice(&p);
+                f.extend_from_slice(eol);
+            }
+        } else {
+            let sw: Vec<usize> = parse_list(t[rest], ',')?;
+            for p in pieces(&seq, &sw)? {
+                f.extend_from_slice(&p);
+                f.extend_from_slice(eol);
+            }
+        }
+    }
+    Ok(f)
+}
+
+fn kind_name(k: &io::Result<fastx::Kind>) -> String {
+    match k {
+        Ok(fastx::Kind::FASTA) => "fa".into(),
+        Ok(fastx::Kind::FASTQ) => "fq".into(),
+        Err(e) => format!("e{}", io_class(e)),
+    }
+}
+
+fn fx_item(r: &fastx::EitherRecord) -> Item {
+    Item::R(
+        Rec {
+            id: FxRecord::id(r).as_bytes().to_vec(),
+            desc: FxRecord::desc(r).map(|d| d.as_bytes().to_vec()),
+            seq: FxRecord::seq(r).to_vec(),
+            qual: FxRecord::qual(r).map(|q| q.to_vec()),
+        },
+        FxRecord::check(r).is_ok(),
+    )
+}
+
+/// all sniffing entry points on `bytes`: `K:<get_kind>,<get_kind_seek>[+moved],<EitherRecords::kind>` and the items
+/// via `get_kind` + matching reader and via `EitherRecords`
+fn run_fx(bytes: &[u8], c: &Cfg) -> String {
+    let limit = bytes.len() + 8;
+    // 1. get_kind on the raw (fragmenting) reader, then the matching parser on the returned reader
+    let fr = Fragmenting::new(Cursor::new(bytes.to_vec()), c.sched.clone(), false);
+    let (k1, items1) = match fastx::get_kind(fr) {
+        Ok((rd, fastx::Kind::FASTA)) => {
+            let br = if c.cap == 0 { BufReader::new(rd) } else { BufReader::with_capacity(c.cap, rd) };
+            ("fa".to_string(), read_fasta(br, c.mode, limit))
+        }
+        Ok((rd, fastx::Kind::FASTQ)) => {
+            let br = if c.cap == 0 { BufReader::new(rd) } else { BufReader::with_capacity(c.cap, rd) };
+            ("fq".to_string(), read_fastq(br, c.mode, limit))
+        }
+        Err(e) => (format!("e{}", io_class(&e)), vec![]),
+    };
+    // 2. get_kind_seek must leave the stream position unchanged
+    let mut cur = Cursor::new(bytes.to_vec());
+    let k2r = fastx::get_kind_seek(&mut cur);
+    let mut rest = vec![];
+    let _ = cur.read_to_end(&mut rest);
+    let mut k2 = kind_name(&k2r);
+    if k2r.is_ok() && rest != bytes {
+        k2.push_str("+moved");
+    }
+    // 3. EitherRecords
+    let mut er = fastx::EitherRecords::new(bufreader(bytes, c));
+    let k3 = kind_name(&er.kind());
+    let mut items3 = vec![];
+    for r in &mut er {
+        match r {
+            Ok(r) => items3.push(fx_item(&r)),
+            Err(fastx::Error::IO(e)) => items3.push(Item::E(io_class(&e).into())),
+            Err(fastx::Error::FASTQ(e)) => items3.push(Item::E(fq_class(&e).into())),
+        }
+        if items3.len() > limit {
+            items3.push(Item::E("LOOP".into()));
+            break;
+        }
+    }
+    format!("K:{},{},{} R:{} R:{}", k1, k2, k3, enc_items(&items1), enc_items(&items3))
+}
+
+pub fn exec(toks: &[&str]) -> Result<String, String> {
+    if toks.len() < 2 {
+        return Err("arity".into());
+    }
+    let fq = match toks[1] {
+        "fa" => false,
+        "fq" => true,
+        "fx" if toks[0] == "raw" => false,
+        _ => return Err("format".into()),
+    };
+    match toks[0] {
+        "w" | "fx" => {
+            if toks.len() != 5 {
+                return Err("arity".into());
+            }
+            let wrap = dec_wrap(toks[2])?;
+            if fq && wrap.is_some() {
+                return Err("fastq has no wrap".into());
+            }
+            let recs = dec_recs(toks[3], fq)?;
+            let cfgs = dec_cfgs(toks[4])?;
+            let f = write_real(&recs, fq, wrap, cfgs[0].mode == 'r')?;
+            let mut out = format!("F:{}", hex(&f));
+            for c in &cfgs {
+                if toks[0] == "w" {
+                    out.push_str(&format!(" R:{}", enc_items(&read_cfg(&f, fq, c))));
+                } else {
+                    out.push(' ');
+                    out.push_str(&run_fx(&f, c));
+                }
+            }
+            Ok(out)
+        }
+        "lay" => {
+            if toks.len() != 4 {
+                return Err("arity".into());
+            }
+            let f = layout(toks[2], fq)?;
+            let cfgs = dec_cfgs(toks[3])?;
+            let mut out = format!("F:{}", hex(&f));
+            for c in &cfgs {
+                out.push_str(&format!(" R:{}", enc_items(&read_cfg(&f, fq, c))));
+            }
+            Ok(out)
+        }
+        "cut" => {
+            if toks.len() != 6 {
+                return Err("arity".into());
+            }
+            let wrap = dec_wrap(toks[2])?;
+            if fq && wrap.is_some() {
+                return Err("fastq has no wrap".into());
+            }
+            let recs = dec_recs(toks[3], fq)?;
+            let cfgs = dec_cfgs(toks[5])?;
+            if cfgs.len() != 1 {
+                return Err("one cfg".into());
+            }
+            let f = write_real(&recs, fq, wrap, false)?;
+            let offs: Vec<usize> = if toks[4] == "all" { (0..=f.len()).collect() } else { parse_list(toks[4], ',')? };
+            let mut out = format!("F:{}", hex(&f));
+            for &c in &offs {
+                if c > f.len() {
+                    return Err("offset beyond file".into());
+                }
+                let items = read_cfg(&f[..c], fq, &cfgs[0]);
+                let mut k = 0;
+                while k < items.len() && k < recs.len() && items[k] == Item::R(recs[k].clone(), true) {
+                    k += 1;
+                }
+                out.push_str(&format!(" {}+{}", k, enc_items(&items[k..])));
+            }
+            Ok(out)
+        }
+        "raw" => {
+            if toks.len() != 4 {
+                return Err("arity".into());
+            }
+            let f = unhex(toks[2])?;
+            let cfgs = dec_cfgs(toks[3])?;
+            let mut out = String::new();
+            for (i, c) in cfgs.iter().enumerate() {
+                if i > 0 {
+                    out.push(' ');
+                }
+                if toks[1] == "fx" {
+                    out.push_str(&run_fx(&f, c));
+                } else {
+                    out.push_str(&format!("R:{}", enc_items(&read_cfg(&f, fq, c))));
+                }
+            }
+            Ok(out)
+        }
+        _ => Err("op".into()),
+    }
+}
+
+// ------------------------------------------------------------------------------------------------ generator
+
+const IDCH: &[u8] = b"abcdefghijklmnopqrstuvwxyzABCDEFGHIJKLMNOPQRSTUVWXYZ0123456789|._-:=/#";
+const DESCCH: &[u8] = b"abcXYZ019 =;,.>@+|\t  ";
+const FA_SEQ: &[u8] = b"ACGTNacgtnRYKMSW*-@+";
+const FQ_SEQ: &[u8] = b"ACGTNacgtn*-.>@+";
+
+fn gen_id(rng: &mut Rng) -> Vec<u8> {
+    if rng.chance(1, 40) {
+        return vec![];
+    }
+    let l = 1 + rng.below(8);
+    let mut id = rng.seq(IDCH, l);
+    if rng.chance(1, 10) {
+        id.extend_from_slice("é日".as_bytes());
+    }
+    if rng.chance(1, 12) {
+        id.insert(0, *rng.pick(b">@+"));
+    }
+    id
+}
+
+fn gen_desc(rng: &mut Rng) -> Option<Vec<u8>> {
+    if rng.chance(2, 5) {
+        return None;
+    }
+    let l = 1 + rng.below(12);
+    let mut d = rng.seq(DESCCH, l);
+    if rng.chance(1, 15) {
+        let p = rng.below(d.len());
+        d.insert(p, b'\r');
+    }
+    if rng.chance(1, 10) {
+        d.extend_from_slice("ü".as_bytes());
+    }
+    while matches!(d.last(), Some(b' ') | Some(b'\t') | Some(b'\r')) {
+        d.pop();
+    }
+    if d.is_empty() {
+        d.push(b'd');
+    }
+    Some(d)
+}
+
+fn gen_rec(rng: &mut Rng, fq: bool, maxlen: usize) -> Rec {
+    let len = match rng.below(8) {
+        0 => 1,
+        1 => 2,
+        2 => 1 + rng.below(6),
+        _ => 1 + rng.below(maxlen),
+    };
+    let mut seq = rng.seq(if fq { FQ_SEQ } else { FA_SEQ }, len);
+    if fq && seq[0] == b'+' {
+        seq[0] = b'A';
+    }
+    let qual = if fq {
+        let mut q: Vec<u8> = (0..len).map(|_| 33 + rng.below(94) as u8).collect();
+        if rng.chance(1, 3) {
+            q[0] = *rng.pick(b"@+");
+        }
+        if rng.chance(1, 8) {
+            // a quality line that looks like a header or a separator
+            for (i, c) in b"@id +".iter().enumerate() {
+                if i < q.len() && *c != b' ' {
+                    q[i] = *c;
+                }
+            }
+        }
+        Some(q)
+    } else {
+        None
+    };
+    Rec { id: gen_id(rng), desc: gen_desc(rng), seq, qual }
+}
+
+fn gen_recs(rng: &mut Rng, fq: bool, maxrecs: usize, maxlen: usize) -> Vec<Rec> {
+    let n = match rng.below(6) {
+        0 => 1,
+        _ => 1 + rng.below(maxrecs),
+    };
+    (0..n).map(|_| gen_rec(rng, fq, maxlen)).collect()
+}
+
+fn gen_sched(rng: &mut Rng) -> Vec<usize> {
+    match rng.below(6) {
+        0 => vec![1],
+        1 => vec![100000],
+        2 => (0..1 + rng.below(6)).map(|_| 1 + rng.below(3)).collect(),
+        3 => (0..1 + rng.below(6)).map(|_| 1 + rng.below(12)).collect(),
+        4 => vec![1, 1, 100000, 2],
+        _ => vec![1 + rng.below(64)],
+    }
+}
+
+fn gen_cfg(rng: &mut Rng) -> String {
+    let cap = match rng.below(8) {
+        0 => 1,
+        1 => 2,
+        2 => 3,
+        3 => 0,
+        4 => 64,
+        _ => 1 + rng.below(64),
+    };
+    format!("{}:{}:{}", cap, if rng.chance(1, 2) { "i" } else { "r" }, join(&gen_sched(rng), ","))
+}
+
+fn gen_cfgs(rng: &mut Rng, n: usize) -> String {
+    (0..n).map(|_| gen_cfg(rng)).collect::<Vec<_>>().join("/")
+}
+
+fn gen_wrap(rng: &mut Rng, recs: &[Rec]) -> String {
+    let l = recs[rng.below(recs.len())].seq.len();
+    match rng.below(8) {
+        0 | 1 => "none".into(),
+        2 => "1".into(),
+        3 => l.to_string(),
+        4 => (l + 1).to_string(),
+        5 => l.saturating_sub(1).max(1).to_string(),
+        6 => "60".into(),
+        _ => (1 + rng.below(12)).to_string(),
+    }
+}
+
+fn recs_str(recs: &[Rec]) -> String {
+    if recs.is_empty() {
+        "-".into()
+    } else {
+        recs.iter().map(enc_rec).collect::<Vec<_>>().join("/")
+    }
+}
+
+/// random split of `len` into line widths (zeros = blank lines, only where `blanks`)
+fn widths(rng: &mut Rng, len: usize, blanks: bool) -> Vec<usize> {
+    let mut out = vec![];
+    let mut left = len;
+    let uniform = if rng.chance(1, 2) { Some(1 + rng.below(9)) } else { None };
+    while left > 0 {
+        if blanks && rng.chance(1, 10) {
+            out.push(0);
+            continue;
+        }
+        let w = match uniform {
+            Some(u) => u.min(left),
+            None => 1 + rng.below(left.min(10)),
+        };
+        out.push(w);
+        left -= w;
+    }
+    if blanks && rng.chance(1, 8) {
+        out.push(0);
+    }
+    out
+}
+
+fn gen_layout(rng: &mut Rng, recs: &[Rec], fq: bool) -> String {
+    let file_eol = if rng.chance(1, 2) { "r" } else { "n" };
+    recs.iter()
+        .map(|r| {
+            let eol = if rng.chance(1, 8) { if file_eol == "r" { "n" } else { "r" } } else { file_eol };
+            if fq {
+                let q = r.qual.as_ref().unwrap();
+                // sequence pieces must not start with '+'
+                let mut sw;
+                loop {
+                    let bl = rng.chance(1, 4);
+                    sw = if rng.chance(1, 3) { vec![r.seq.len()] } else { widths(rng, r.seq.len(), bl) };
+                    let mut p = 0;
+                    let mut ok = true;
+                    for &w in &sw {
+                        if w > 0 && r.seq[p] == b'+' {
+                            ok = false;
+                        }
+                        p += w;
+                    }
+                    if ok {
+                        break;
+                    }
+                }
+                // the same number of quality lines (any widths, blank ones allowed)
+                let k = sw.len();
+                let mut qw = vec![0usize; k];
+                let mut left = q.len();
+                let samew = rng.chance(2, 3);
+                for i in 0..k {
+                    if samew {
+                        qw[i] = sw[i];
+                        continue;
+                    }
+                    let w = if i + 1 == k { left } else if rng.chance(1, 2) { sw[i].min(left) } else { rng.below(left + 1) };
+                    qw[i] = w;
+                    left -= w;
+                }
+                let plus = if rng.chance(1, 4) {
+                    let mut p = r.id.clone();
+                    if let Some(d) = &r.desc {
+                        p.push(b' ');
+                        p.extend_from_slice(d);
+                    }
+                    p
+                } else {
+                    vec![]
+                };
+                format!("{}:{}:{}:{}:{}", enc_rec(r), eol, hex(&plus), join(&sw, ","), join(&qw, ","))
+            } else {
+                let bl = rng.chance(1, 4);
+                let sw = widths(rng, r.seq.len(), bl);
+                format!("{}:{}:{}", enc_rec(r), eol, join(&sw, ","))
+            }
+        })
+        .collect::<Vec<_>>()
+        .join("/")
+}
+
+fn garbage(rng: &mut Rng, fq: bool) -> Vec<u8> {
+    let base: Vec<u8> = {
+        let recs = gen_recs(rng, fq, 3, 12);
+        let wrap = if fq { None } else if rng.chance(1, 2) { Some(1 + rng.below(6)) } else { None };
+        let ascii: Vec<Rec> = recs
+            .into_iter()
+            .map(|mut r| {
+                r.id.retain(|b| *b < 128);
+                if let Some(d) = &mut r.desc {
+                    d.retain(|b| *b < 128);
+                    if d.is_empty() {
+                        d.push(b'x');
+                    }
+                }
+                r
+            })
+            .collect();
+        write_real(&ascii, fq, wrap, false).unwrap_or_default()
+    };
+    const STRUCT: &[u8] = b">@+\n\r \t\n\n>@+A";
+    match rng.below(6) {
+        0 => {
+            // purely structural characters
+            {
+                let l = rng.below(24);
+                rng.seq(STRUCT, l)
+            }
+        }
+        1 => {
+            // random bytes (mostly ASCII)
+            (0..rng.below(40)).map(|_| if rng.chance(1, 10) { rng.below(256) as u8 } else { rng.below(128) as u8 }).collect()
+        }
+        _ => {
+            // mutations of a valid file: replace / insert / delete with structural characters
+            let mut f = base;
+            let k = 1 + rng.below(4);
+            for _ in 0..k {
+                if f.is_empty() {
+                    break;
+                }
+                let p = rng.below(f.len());
+                match rng.below(4) {
+                    0 => f[p] = *rng.pick(STRUCT),
+                    1 => f.insert(p, *rng.pick(STRUCT)),
+                    2 => {
+                        f.remove(p);
+                    }
+                    _ => {
+                        // delete a whole line
+                        let e = f[p..].iter().position(|&b| b == b'\n').map(|x| p + x + 1).unwrap_or(f.len());
+                        f.drain(p..e);
+                    }
+                }
+            }
+            if rng.chance(1, 20) {
+                let p = rng.below(f.len() + 1);
+                f.insert(p, 0xC3); // a lone UTF-8 lead byte
+            }
+            f
+        }
+    }
+}
+
+pub fn gen(tier: &str, rng: &mut Rng, out: &mut Vec<String>) {
+    let thorough = tier == "thorough";
+    let (n_w, n_lay, n_cut, n_raw, n_fx, n_big) =
+        if thorough { (5000, 5000, 2500, 20000, 2000, 60) } else { (500, 500, 260, 3000, 200, 4) };
+    for i in 0..n_w {
+        let fq = i % 2 == 1;
+        let recs = gen_recs(rng, fq, 5, 40);
+        let wrap = if fq { "none".to_string() } else { gen_wrap(rng, &recs) };
+        out.push(format!("w {} {} {} {}", if fq { "fq" } else { "fa" }, wrap, recs_str(&recs), gen_cfgs(rng, 6)));
+    }
+    for i in 0..n_lay {
+        let fq = i % 2 == 1;
+        let recs = gen_recs(rng, fq, 4, 40);
+        out.push(format!("lay {} {} {}", if fq { "fq" } else { "fa" }, gen_layout(rng, &recs, fq), gen_cfgs(rng, 4)));
+    }
+    for i in 0..n_cut {
+        let fq = i % 2 == 1;
+        let recs = gen_recs(rng, fq, 3, 14);
+        let wrap = if fq { "none".to_string() } else { gen_wrap(rng, &recs) };
+        out.push(format!("cut {} {} {} all {}", if fq { "fq" } else { "fa" }, wrap, recs_str(&recs), gen_cfg(rng)));
+    }
+    for i in 0..n_raw {
+        let kind = ["fa", "fq", "fx"][i % 3];
+        let gfq = if kind == "fx" { rng.chance(1, 2) } else { kind == "fq" };
+        let g = garbage(rng, gfq);
+        out.push(format!("raw {} {} {}", kind, hex(&g), gen_cfgs(rng, 2)));
+    }
+    for i in 0..n_fx {
+        let fq = i % 2 == 1;
+        let recs = gen_recs(rng, fq, 4, 30);
+        let wrap = if fq { "none".to_string() } else { gen_wrap(rng, &recs) };
+        out.push(format!("fx {} {} {} {}", if fq { "fq" } else { "fa" }, wrap, recs_str(&recs), gen_cfgs(rng, 2)));
+    }
+    // larger files: several refills of the default 8 KiB buffer, random offsets
+    for i in 0..n_big {
+        let fq = i % 2 == 1;
+        let n = 20 + rng.below(40);
+        let recs: Vec<Rec> = (0..n).map(|_| gen_rec(rng, fq, 400)).collect();
+        let wrap = if fq { "none".to_string() } else { rng.pick(&["none", "60", "7"]).to_string() };
+        let cfgs = format!("0:i:100000/0:r:{}/64:i:8192,1,5", 1 + rng.below(5000));
+        out.push(format!("w {} {} {} {}", if fq { "fq" } else { "fa" }, wrap, recs_str(&recs), cfgs));
+    }
 }
